@@ -30,7 +30,7 @@ func init() {
 			"type inference is int if all cells Atoi, else float if all cells ParseFloat or empty, else bool if all ParseBool, else string (strconv decides what parses)",
 		},
 		Exhaustive: func(string) bool { return false },
-		Stages:     stages(400, 12000, 150, 150),
+		Stages:     stages(2000, 30000, 200, 200),
 		RunCase:    runC12,
 		Conclude: func(tier string, c map[string]int64, _ []string) string {
 			if c["schedules:single-split-exhaustive-docs"] == 0 || c["schedules:pair-split-exhaustive-docs"] == 0 {
